@@ -127,6 +127,23 @@ theorem util_length_refines (truth : Term → Bool) (len : Nat) :
   unfold util_length
   cases truth (Term.app "is_scalar" [Term.sym "value"]) <;> simp [FS.Shape.length]
 
+/-- `Vector.length` as written re-checks the dimension on every use: the fast paths of `DataFrame.__init__`
+    and `_reconcile_column` ("already a column with `nrow` elements") read `.nrow` = `.length`, so this
+    check is what keeps a two-dimensional view of a column (`column[:, None]`, `reshape`) out of a frame. -/
+theorem vector_length_checks_dimensions (truth : Term → Bool) :
+    Vector_length truth =
+      Out.ret [Term.app "._check_dimensions" [Term.sym "self"]] (Term.app ".size" [Term.sym "self"]) := rfl
+
+/-- `DataFrame.nrow` as written: 0 for a frame without columns; otherwise the dimensions are checked
+    first and the answer is the row count of the first column (all are equal, by the check). -/
+theorem frame_nrow_normal_form (truth : Term → Bool) :
+    DataFrame_nrow truth =
+      if !truth (Term.sym "self") then Out.ret [] (Term.int 0)
+      else Out.ret [Term.app "._check_dimensions" [Term.sym "self"]]
+        (Term.app ".nrow" [Term.app "getitem" [Term.sym "self", Term.app "next" [Term.app "iter" [Term.sym "self"]]]]) := by
+  unfold DataFrame_nrow
+  cases truth (Term.sym "self") <;> rfl
+
 example : FS.column (.seq 1) (some 3) = some 3 ∧ FS.column (.seq 2) (some 3) = none ∧
     FS.column (.seq 1) (some 0) = none ∧ FS.column (.seq 4) none = some 4 := by decide
 
